@@ -26,3 +26,22 @@ Theorem C08_counter : forall init calls fin c,
   fin = Some (c + Z.of_nat (length calls)).
 Proof. exact counter_never_loses_updates. Qed.
 Print Assumptions C08_counter.
+
+(* ---- the unbounded theorem over the list-bin protocol model (Model/BinProto.v) ----
+   For every hash function, table size, program and schedule: every compute_if_present call whose
+   callback ran returned f(seen), and in a legal linearization of the key's history respecting
+   real time, `seen` is exactly the key's value immediately before the call and f(seen) its value
+   immediately after - no other update falls in between. *)
+From Flurry Require Import Model.BinProto Proofs.BinProtoProofs.
+Theorem C08_binproto_compute_atomic : forall khash nbins progs sched k,
+  (0 < nbins)%nat ->
+  let c := run khash nbins (init nbins progs) sched in
+  all_done c = true ->
+  exists order, Permutation order (key_history c k) /\ respects_rt order /\
+    legal None order = Some (lookup khash nbins c k) /\
+    forall h f seen ret, In h (hist c) -> h_op h = OCompute k f -> h_res h = RComputed (Some seen) ret ->
+      ret = f seen /\
+      exists pre post, let x := C_ (h_inv h) (h_resp h) (KCompute f (Some seen) ret) in
+        order = pre ++ x :: post /\ legal None pre = Some (Some seen) /\ legal None (pre ++ [x]) = Some (f seen).
+Proof. exact compute_atomic. Qed.
+Print Assumptions C08_binproto_compute_atomic.
